@@ -588,7 +588,7 @@ func (cu *CellUnion) decode(d *decoder) {
 	if d.err != nil {
 		return
 	}
-	if n > maxEncodedCells {
+	if n < 0 || n > maxEncodedCells {
 		d.err = fmt.Errorf("too many cells (%d; max is %d)", n, maxEncodedCells)
 		return
 	}
